@@ -4,6 +4,8 @@ records, non-constant group columns cut off by LIMIT, ...).  Every expectation i
 Each case: (properties, key, query, A, B, names_a, names_b, expected) with expected = ('ok', rows) | ('ok+hdr', rows, header) |
 ('error', class name)."""
 import copy
+from decimal import Decimal
+from fractions import Fraction
 
 from .registry import job
 from .refsem import load_rbql
@@ -26,6 +28,47 @@ CASES = [
     (('C01', 'C08', 'C07'), 'lit:select:as-text', "select 'first as one, second', a1", [['x']], None, None, None, ('ok', [['first as one, second', 'x']])),
     (('C01', 'C08'), 'lit:select:count-text', "select 'n,COUNT(*)', a1", [['x']], None, None, None, ('ok', [['n,COUNT(*)', 'x']])),
     (('C09', 'C08'), 'lit:name:raw-tab', 'select a["first' + TAB + 'last"], a["first last"]', [['1', '2']], None, ['first' + TAB + 'last', 'first last'], None, ('ok', [['1', '2']])),
+    # ---- characters that str.splitlines() treats as line breaks are ordinary characters inside literals and column names
+    (('C01', 'C08', 'C05', 'C09'), 'lit:unicode-linebreaks:select', "select 'p\u2028q', 'r\x0bs', 't\x85u', 'v\x1cw', 'x\u2029y\x0cz', a1", [['1']], None, None, None,
+     ('ok', [['p\u2028q', 'r\x0bs', 't\x85u', 'v\x1cw', 'x\u2029y\x0cz', '1']])),
+    (('C01', 'C08'), 'lit:unicode-linebreaks:where', "select a1 where a2 == 'k\u2028' or a2 == '\x0c#k'", [['1', 'k\u2028'], ['2', 'k '], ['3', '\x0c#k'], ['4', 'k']], None, None, None, ('ok', [['1'], ['3']])),
+    (('C05', 'C08'), 'lit:unicode-linebreaks:update', "update a2 = 'm\x85n' where a1 == '\x1d'", [['\x1d', 'q'], [' ', 'q']], None, None, None, ('ok', [['\x1d', 'm\x85n'], [' ', 'q']])),
+    (('C09', 'C08'), 'lit:name:unicode-linebreak', 'select a["x\u2028y"], a["x y"], a[\'x\x0by\']', [['1', '2', '3']], None, ['x\u2028y', 'x y', 'x\x0by'], None, ('ok', [['1', '2', '3']])),
+    (('C08',), 'comment-after-semicolon', 'select a1 order by a1 desc;\n# note\n  # second note', [['1'], ['2']], None, None, None, ('ok', [['2'], ['1']])),
+    (('C08', 'C09'), 'comment-mentions-unknown-column', 'select a.id\n# select a.fullname, b.area\nwhere a.id != "0"', [['1'], ['0']], None, ['id'], None, ('ok', [['1']])),
+    # ---- C01: keyword arguments inside select items are ordinary Python, not assignments
+    (('C01',), 'select:kwarg', "select int(a1, base=16), sorted([a2, a1], reverse=True)[0], a2.split('|', maxsplit=1)[1]", [['ff', 'x|y|z']], None, None, None, ('ok', [[255, 'x|y|z', 'y|z']])),
+    (('C01',), 'select:kwarg:unnest', "select a1, UNNEST(a2.split('|', maxsplit=1))", [['k', 'x|y|z']], None, None, None, ('ok', [['k', 'x'], ['k', 'y|z']])),
+    (('C01', 'C14'), 'where:assignment-rejected', 'select a1 where a1 = 1', [['1']], None, None, None, ('error', 'RbqlParsingError')),
+    # ---- C14: a second UNNEST is a parsing error at the first selected record, also when the first list is empty
+    (('C14', 'C01'), 'unnest:two:first-empty', 'select UNNEST(a1.split()), UNNEST(a2.split())', [['', 'p q'], ['x y', 'r']], None, None, None, ('error', 'RbqlParsingError')),
+    (('C14', 'C01'), 'unnest:two:all-empty', 'select UNNEST(a1.split()), UNNEST(a2.split())', [['', ''], ['', '']], None, None, None, ('error', 'RbqlParsingError')),
+    (('C01',), 'unnest:empty-list', 'select a2, UNNEST(a1.split())', [['', 'k'], ['x y', 'r']], None, None, None, ('ok', [['r', 'x'], ['r', 'y']])),
+    # ---- C13 / C05 / C06: the same row object several times in a list table is still one independent record each time
+    (('C13', 'C05', 'C06'), 'update:same-row-object-thrice', "update set a2 = a2 + '!'", ('ALIAS', ['rome', 'it'], 3), None, None, None, ('ok', [['rome', 'it!'], ['rome', 'it!'], ['rome', 'it!']]), {'sources': True}),
+    (('C13', 'C05', 'C06'), 'update:sources-kept', "update set a1 = a1 + a2", [['p', 'q'], ['r', 's']], None, None, None, ('ok', [['pq', 'q'], ['rs', 's']]), {'sources': True}),
+    # ---- C16 / C06: an output record is never one of the caller's input or join rows (a writer may edit what it is given)
+    (('C16', 'C06', 'C01'), 'select-star:fresh-records', 'select *', [['1', 'x'], [None, 'y']], None, None, None, ('ok', [['1', 'x'], [None, 'y']]), {'fresh': True, 'sources': True}),
+    (('C16', 'C06', 'C01'), 'select-a-star:fresh-records', 'select a.*', [['1', 'x'], [None, 'y']], None, ['k', 'v'], None, ('ok', [['1', 'x'], [None, 'y']]), {'fresh': True, 'sources': True}),
+    (('C16', 'C06', 'C04'), 'select-b-star:fresh-records', 'select b.* join B on a1 == b1', [['1'], ['2']], [['2', 'q'], ['1', None]], None, None, ('ok', [['1', None], ['2', 'q']]), {'fresh': True, 'sources': True}),
+    (('C16', 'C06', 'C01'), 'select-star:where:fresh-records', 'select * where a1 is not None', [['1', 'x'], [None, 'y']], None, None, None, ('ok', [['1', 'x']]), {'fresh': True, 'sources': True}),
+    # ---- C05 / C09: there is no field number 0
+    (('C05', 'C09'), 'update:zero-subscript', "update a[0] = 'X'", [['1', 'x']], None, None, None, ('error', 'RbqlParsingError')),
+    (('C05', 'C09'), 'update:zero-subscript:second', "update a[1] = 'ok', a[0] = 'X' where a1 == '1'", [['1', 'x']], None, None, None, ('error', 'RbqlParsingError')),
+    (('C01', 'C09'), 'select:zero-subscript', 'select a[0]', [['1', 'x']], None, None, None, ('error', 'RbqlRuntimeError')),
+    # ---- C09 / C07: column names used directly (normalize_column_names=False) that look like aN-variables
+    (('C09', 'C07'), 'direct:prefix-name', 'select a1c, hba', [['1', '2']], None, ['hba', 'a1c'], None, ('ok+hdr', [['2', '1']], ['a1c', 'hba']), {'normalize': False}),
+    (('C09', 'C07'), 'direct:prefix-name:b', 'select a2x, b1_name join B on a2x == b1_name', [['1', '2']], [['2']], ['k', 'a2x'], ['b1_name'], ('ok+hdr', [['2', '2']], ['a2x', 'b1_name']), {'normalize': False}),
+    (('C09',), 'direct:aN-names-permuted', 'select a2, a1, a3', [['1', '2', '3']], None, ['a3', 'a1', 'a2'], None, ('ok', [['3', '2', '1']]), {'normalize': False}),
+    (('C09',), 'direct:bN-names-permuted', 'select b2, b1 join B on k == b1', [['9']], [['8', '9']], ['k'], ['b2', 'b1'], ('ok', [['8', '9']]), {'normalize': False}),
+    # ---- C07: a select list whose first item opens and whose last item closes a parenthesis is still a list
+    (('C07',), 'hdr:paren-first-last', 'select (int(a1) + 1) * 2, len(a2)', [['1', 'ab']], None, ['p', 'q'], None, ('ok+hdr', [[4, 2]], ['col1', 'col2'])),
+    (('C07',), 'hdr:paren-each', 'select (a1), (a2)', [['1', 'ab']], None, ['p', 'q'], None, ('ok+hdr', [['1', 'ab']], ['p', 'q'])),
+    # ---- C04: the LEFT JOIN null record is as wide as the widest B record, with or without column names
+    (('C04',), 'leftjoin:ragged-wide-B:names', 'select * left join B on a1 == b1', [['x', '10'], ['y', '20'], ['z', '30']], [['x', 'one'], ['z', 'three', 'extra']], ['id', 'amount'], ['id', 'word'],
+     ('ok', [['x', '10', 'x', 'one'], ['y', '20', None, None, None], ['z', '30', 'z', 'three', 'extra']])),
+    (('C04',), 'leftjoin:ragged-wide-B:bNF', 'select a1, b.*, bNF left outer join B on a1 == b1', [['x', '10'], ['y', '20']], [['x', 'one'], ['z', 'three', 'extra']], ['id', 'amount'], ['id', 'word'],
+     ('ok', [['x', 'x', 'one', 2], ['y', None, None, None, 3]])),
     # ---- C01: EXCEPT names a column more than once (same or different spelling)
     (('C01',), 'except:dup:same', 'select * except a2, a2', [['p', 'q', 'r'], ['s', 't', 'u']], None, None, None, ('ok', [['p', 'r'], ['s', 'u']])),
     (('C01',), 'except:dup:spelling', 'select * except a2, a[2]', [['p', 'q', 'r']], None, None, None, ('ok', [['p', 'r']])),
@@ -49,6 +92,21 @@ CASES = [
     (('C03',), 'agg:bigint:variance', 'select VARIANCE(a1)', [[str(BIG)], [str(BIG + 2)]], None, None, None, ('ok', [[1.0]])),
     (('C03', 'C14'), 'agg:nonconst:limit', 'select a1, a2, COUNT(*) group by a1 limit 1', [['ant', '1'], ['car', '2'], ['dog', '3'], ['dog', '4']], None, None, None, ('error', 'RbqlRuntimeError')),
     (('C03', 'C14'), 'agg:nonconst:top', 'select top 1 a1, a2 group by a1', [['ant', '1'], ['dog', '3'], ['dog', '4']], None, None, None, ('error', 'RbqlRuntimeError')),
+    (('C03', 'C02'), 'agg:top0', 'select top 0 COUNT(*)', [['a'], ['b']], None, None, None, ('ok', [])),
+    (('C03', 'C02'), 'agg:limit0:group', 'select a1, COUNT(*) group by a1 limit 0', [['a'], ['b'], ['a']], None, None, None, ('ok', [])),
+    (('C03', 'C02'), 'agg:top1:group', 'select top 1 a1, COUNT(*) group by a1', [['b'], ['a'], ['b']], None, None, None, ('ok', [['a', 1]])),
+    (('C03', 'C02'), 'agg:limit2:group', 'select a1, SUM(a2) group by a1 limit 2', [['c', '1'], ['a', '2'], ['b', '3'], ['a', '4']], None, None, None, ('ok', [['a', 6], ['b', 3]])),
+    # lower-case min/max/sum: aggregate for one scalar argument of any ordered type, Python builtin for an iterable (also one without len()) or several arguments
+    (('C03',), 'agg:lower-min:fraction', 'select min(Fraction(a1))', [['3'], ['1'], ['2']], None, None, None, ('ok', [[Fraction(1)]]), {'init': 'from fractions import Fraction'}),
+    (('C03',), 'agg:lower-max:fraction', 'select max(Fraction(a1))', [['3'], ['1'], ['2']], None, None, None, ('ok', [[Fraction(3)]]), {'init': 'from fractions import Fraction'}),
+    (('C03',), 'agg:lower-min:decimal:group', 'select a1, min(Decimal(a2)), max(Decimal(a2)) group by a1', [['k', '2.5'], ['k', '1.5'], ['j', '7']], None, None, None,
+     ('ok', [['j', Decimal('7'), Decimal('7')], ['k', Decimal('1.5'), Decimal('2.5')]]), {'init': 'from decimal import Decimal'}),
+    (('C03',), 'builtin:max:generator', 'select a1, max(int(x) for x in (a2, a3))', [['r', '1', '5'], ['s', '7', '2']], None, None, None, ('ok', [['r', 5], ['s', 7]])),
+    (('C03',), 'builtin:min:map', 'select a1, min(map(int, [a2, a3]))', [['r', '1', '5'], ['s', '7', '2']], None, None, None, ('ok', [['r', 1], ['s', 2]])),
+    (('C03',), 'builtin:sum:generator', 'select a1, sum(int(x) for x in (a2, a3))', [['r', '1', '5'], ['s', '7', '2']], None, None, None, ('ok', [['r', 6], ['s', 9]])),
+    (('C03',), 'builtin:max:iterator', 'select max(iter([int(a2), int(a3)]))', [['r', '1', '5']], None, None, None, ('ok', [[5]])),
+    (('C03',), 'agg-of-builtin:generator', 'select SUM(max(int(x) for x in (a2, a3))), MIN(min(int(x) for x in (a2, a3)))', [['r', '1', '5'], ['s', '7', '2']], None, None, None, ('ok', [[12, 1]])),
+    (('C03',), 'builtin:max:two-args', 'select max(int(a2), int(a3)), min(a2, a3)', [['r', '1', '5'], ['s', '7', '2']], None, None, None, ('ok', [[5, '1'], [7, '2']])),
     (('C03',), 'agg:any-value:first', 'select ANY_VALUE(a1), MAX(a2)', [['p', '1'], ['q', '5']], None, None, None, ('ok', [['p', 5]])),
     (('C03',), 'agg:any-value:alone', 'select ANY_VALUE(a1)', [['p'], ['q']], None, None, None, ('ok', [['p']])),
     (('C03',), 'agg:array-agg', 'select a1, ARRAY_AGG(a2) group by a1', [['k', '1'], ['j', '2'], ['k', '3']], None, None, None, ('ok', [['j', ['2']], ['k', ['1', '3']]])),
@@ -85,6 +143,9 @@ def _table(spec):
     if spec == 'SAME_ROW_TWICE':
         row = [1]
         return [row, row]
+    if isinstance(spec, tuple) and spec and spec[0] == 'ALIAS':
+        row = list(spec[1])
+        return [row] * spec[2]
     return copy.deepcopy(spec)
 
 
@@ -97,13 +158,13 @@ def _run_case(case):
     B2 = copy.deepcopy(B) if B is not None else None
     A0, B0 = copy.deepcopy(A2), copy.deepcopy(B2)
     try:
-        eng.query_table(q, A2, out, [], B2, list(na) if na else None, list(nb) if nb else None, hdr, True, opts.get('init', ''))
+        eng.query_table(q, A2, out, [], B2, list(na) if na else None, list(nb) if nb else None, hdr, opts.get('normalize', True), opts.get('init', ''))
         got = ('ok', out, hdr)
     except Exception as e:
         got = ('error', type(e).__name__, str(e)[:200])
     if opts.get('sources') and (A2 != A0 or B2 != B0):
         return False, ('sources-modified', A2, B2)
-    if opts.get('fresh') and got[0] == 'ok' and any(r is src for r in out for src in A2):
+    if opts.get('fresh') and got[0] == 'ok' and any(r is src for r in out for src in list(A2) + list(B2 or [])):
         return False, ('output-record-is-an-input-row',)
     if exp[0] == 'error':
         ok = got[0] == 'error' and got[1] == exp[1]
